@@ -125,6 +125,10 @@ def check_outputs(rep, run_id, outs, events, wd, seed, orders=3, shape_of=None):
                 open(tu, "w").write("".join('#include "%s"\n' % h for h in order))
                 tus.append(tu)
             report(be, "g++ all-headers", each_alone(tus, lambda f: ["g++", "-std=c++17", "-fsyntax-only", "-I", outs[be], f]))
+    if "demo_gen" in outs:
+        # the demo modules (one per type with render termini, plus index.mjs) are JavaScript the tool wrote: they must parse
+        ms = [os.path.join(outs["demo_gen"], f) for f in sorted(os.listdir(outs["demo_gen"])) if f.endswith(".mjs")]
+        report("demo_gen", "node --check", each_alone(ms, lambda f: ["node", "--check", f]))
     if "js" in outs:
         ms = [os.path.join(outs["js"], f) for f in sorted(os.listdir(outs["js"])) if f.endswith(".mjs")]
         report("js", "node --check", each_alone(ms, lambda f: ["node", "--check", f]))
@@ -305,6 +309,42 @@ def run(rep, tier):
         ob = run_set(rep, "special_" + be, None, wd, events, build=False, entry=eb, backends=(be,),
                      shape_of=lambda f, _m=by_type: _m.get(re.sub(r'\..*$', '', f)))
         rep.extra["special_shapes_" + be] = len(sp) if be in ob else 0
+    # ---- set 2c: render termini of demo_gen: parameter names that repeat (the generator has to keep them apart), nested structs,
+    # constructors with their own parameters, plus a sample of the methods the extension spec DemoGen.tla enumerates
+    DEMO = """#[diplomat::bridge]
+pub mod ffi {
+    use diplomat_runtime::DiplomatWrite;
+    pub struct Point { pub x: f64, pub y: f64 }
+    pub struct Seg { pub point: Point, pub point_x: f64, pub x: f64 }
+    #[diplomat::opaque]
+    pub struct Canvas(u8);
+    impl Point {
+        pub fn describe(self, w: &mut DiplomatWrite) {}
+        pub fn describe_shift(self, point: Point, point_x: f64, w: &mut DiplomatWrite) {}
+        pub fn four(self, point: Point, point_x: f64, x: f64, seg: Seg, w: &mut DiplomatWrite) {}
+    }
+    impl Canvas {
+        #[diplomat::demo(default_constructor)]
+        pub fn make(point: Point, point_x: f64, canvas_point_x: f64) -> Box<Canvas> { todo!() }
+        pub fn draw(&self, canvas: &Canvas, point: Point, seg: Seg, point_x: f64, x: f64, canvas_point_x: f64, w: &mut DiplomatWrite) {}
+        pub fn twice(&self, a: &Canvas, b: &Canvas, w: &mut DiplomatWrite) -> Result<(), ()> { Ok(()) }
+    }
+}
+"""
+    eb = os.path.join(wd, "demo.rs")
+    open(eb, "w").write(DEMO)
+    run_set(rep, "demo", None, wd, events, build=False, entry=eb, backends=("demo_gen",))
+    import demogen
+    dg = lib.tlc("demogen", "MC_DemoGen", "emit.cfg", workers=2, coverage=False, timeout=900)
+    lib.tlc_expect_ok(dg, "DemoGen case emission")
+    dcs = [c for c in dg.printed["CASE"] if not c["explicit"] and not c["error"]]
+    for c in dcs:
+        if isinstance(c["m"]["params"], dict):
+            c["m"]["params"] = [c["m"]["params"][k] for k in sorted(c["m"]["params"], key=int)]
+    random.Random(lib.seed() + 5).shuffle(dcs)
+    eb = os.path.join(wd, "demo_spec.rs")
+    open(eb, "w").write(demogen.module_src(list(enumerate(dcs[: (300 if tier == "quick" else 3000)]))).replace("mod ffi", "pub mod ffi"))
+    run_set(rep, "demo_spec", None, wd, events, build=False, entry=eb, backends=("demo_gen",))
     if outs.get("_macro_failed"):
         # attribute the failure: one bridge module per shape (own copies of the helper types), so that the line of the
         # offending #[diplomat::bridge] attribute names the shape
